@@ -15,12 +15,15 @@ SPEC = dict(
     technique="model-based property testing (rapidcheck op lists) + scripted two-thread schedule exploration under ASan/TSan",
     rule=("seq: op list (<=60) over 1-2 sessions with maxSyncReceiveBuffer in {8,64,1 MiB} and GC threshold {0,1024}: "
           "Deliver(chunk 1..12/80/300 B, rarely 300 KB), Receive(len in {0..5000, 1 MiB}, timeout 0), "
-          "SetMode(Async|Sync|Disabled), Close, late Receive, final drain; every step compared with the reference model. "
+          "SetMode(Async|Sync|Disabled), Close(reason drawn from the 12 code/message pairs the engines pass to onClose: PeerClosed, "
+          "Unknown 'closed by app'/'shutdown', Timeout, Socket, TLSIO, TLSHandshake, WriteBackpressure, GCClosed, Connect, "
+          "ShuttingDown), late Receive, final drain; every step compared with the reference model. "
           "conc: I/O script (<=24 chunks with 0-300 us gaps, optional close, optionally held back until the receiver is parked) "
           "against an application script (<=24 receives with timeouts {0,1,2,10 ms} / mode switches / pauses) on two threads, "
           "variants sync-only, sync/async switching (slow flush callback), small cap (overflow), with Disabled; seeded yields at "
-          "mutex operations (ASan build) / TSan build. e2e: real TcpEngine, raw peer sends <=12 chunks then FIN, ioReadChunk in "
-          "{5,64,4096,65536}. Non-trivial = the history contains a flush, a close or an overflow with a non-empty buffer (seq); "
+          "mutex operations (ASan build) / TSan build; the close reason is drawn as in seq. e2e: real TcpEngine, raw peer sends <=12 "
+          "chunks, ioReadChunk in {5,64,4096,65536}; the session ends by peer FIN right after the last byte, or - after the engine "
+          "has read every byte (stats.bytesIn) - by the application's close(sid), by stop(), or by a peer RST. Non-trivial = the history contains a flush, a close or an overflow with a non-empty buffer (seq); "
           "a receive returned data or a flush handed buffered bytes while the I/O thread was running (conc); the full stream was "
           "read up to PeerClosed (e2e). Distinct by hash of the plan."),
     assumptions=["single-waiter contract of receiveSync and 'no data after onClose, no empty chunks' of the engine are respected by the generator",
